@@ -151,7 +151,9 @@ impl<TC: ModelCfg> Prover<TC> {
                 commitment_nonce: self.srv.nonce(LABEL, v, &value_of(v)),
             });
         }
-        let (past, future) = get_marker_versions(s, n, cur);
+        // (a claim beyond the epoch: the server computes the lists as if the epoch were large enough; the
+        // real verifier must refuse before it ever evaluates them)
+        let (past, future) = get_marker_versions(s, n, cur.max(n));
         let mut hp = HistoryProof {
             update_proofs,
             past_marker_vrf_proofs: vec![],
@@ -257,6 +259,34 @@ fn conformance<TC: ModelCfg>(args: &Args, rep: &Report, emax: u64) {
                 }
             }
             rep.distinct(format!("{}:conf:{}:{:?}", TC::NAME, e, c));
+        });
+    });
+}
+
+/// claims about versions greater than the epoch must be rejected even when a dishonest tree contains
+/// every leaf the claim needs
+fn beyond_epoch<TC: ModelCfg>(args: &Args, rep: &Report, emax: u64) {
+    let mut claims: Vec<(u64, Claim)> = vec![];
+    for e in 1..=emax {
+        for m in [e + 1, e + 2] {
+            claims.push((e, Claim::Lookup(m)));
+            claims.push((e, Claim::History(1, m)));
+            claims.push((e, Claim::History(m, m)));
+        }
+    }
+    crate::explore::par_for(args.threads, &claims, |_, (e, c)| {
+        let rt = crate::gate::plain_runtime();
+        rt.block_on(async {
+            // the tree holds what the claim would need at a later epoch (requirements computed for epoch e+2)
+            let present = req_of(c, *e + 2).present();
+            rep.traces(1);
+            rep.eval(1);
+            if accepts::<TC>(&present, *e, c).await.is_some() {
+                rep.violation(
+                    format!("{}/version_greater_than_epoch_accepted/{}", TC::NAME, if matches!(c, Claim::History(..)) { "history" } else { "lookup" }),
+                    json!({"claim": format!("{c:?}"), "epoch": e}),
+                );
+            }
         });
     });
 }
@@ -420,6 +450,8 @@ pub fn run(args: &Args) -> i32 {
     let rep = Report::new("C08", &args.tier, "model_checking");
     let (e_hist, e_lookup, conf_e) = if args.quick() { (64, 1024, 7) } else { (160, 4096, 10) };
     conformance::<W>(args, &rep, conf_e);
+    beyond_epoch::<W>(args, &rep, conf_e);
+    beyond_epoch::<ECfg>(args, &rep, conf_e);
     conformance::<ECfg>(args, &rep, if args.quick() { 4 } else { conf_e });
     sweep::<W>(args, &rep, e_hist, e_lookup, conf_e);
     if !args.quick() {
